@@ -717,11 +717,11 @@ func C10real(r *ev.Report) {
 	}
 
 	if g := secp256k1.VerifAllGlobals(); g != globals {
-		r.Violation("globals/changed", fmt.Sprintf("package-level state changed: %s -> %s", globals, g), Case{"op": "globals"})
+		r.PackageState("globals/changed", fmt.Sprintf("package-level state changed: %s -> %s", globals, g), Case{"op": "globals"})
 	}
 
 	if g := secp256k1.VerifAllGlobals(); prelude.Baseline != "" && g != prelude.Baseline {
-		r.Violation("globals/differ-from-process-start", fmt.Sprintf("package-level state is not what it was before the first call into the library: %s -> %s", prelude.Baseline, g), Case{"op": "globals"})
+		r.PackageState("globals/differ-from-process-start", fmt.Sprintf("package-level state is not what it was before the first call into the library: %s -> %s", prelude.Baseline, g), Case{"op": "globals"})
 	}
 
 	r.Bound("depth_completed", completed)
